@@ -104,6 +104,9 @@ func (e *EventEmitter) handleSubscriber(ctx context.Context, sub event.Subscript
 	cevent := make(chan Event, 16)
 	condProcess := sync.NewCond(&sync.Mutex{})
 	queue := list.New()
+	// sending is true while the second goroutine holds an event it has taken
+	// from the queue but not yet delivered; protected by condProcess.L
+	sending := false
 	wg := sync.WaitGroup{}
 
 	wg.Add(1)
@@ -126,7 +129,7 @@ func (e *EventEmitter) handleSubscriber(ctx context.Context, sub event.Subscript
 			verifhook.At("emitter.recv", sub, e)
 
 			condProcess.L.Lock()
-			if queue.Len() == 0 {
+			if queue.Len() == 0 && !sending {
 				// try to push event to the queue
 				select {
 				case cevent <- e:
@@ -157,6 +160,7 @@ func (e *EventEmitter) handleSubscriber(ctx context.Context, sub event.Subscript
 			}
 
 			e := queue.Remove(queue.Front())
+			sending = true
 			verifhook.At("emitter.dequeued", sub, e)
 
 			// Unlock cond mutex while sending the event
@@ -170,6 +174,7 @@ func (e *EventEmitter) handleSubscriber(ctx context.Context, sub event.Subscript
 			}
 
 			condProcess.L.Lock()
+			sending = false
 			verifhook.At("emitter.relocked", sub)
 		}
 		condProcess.L.Unlock()
